@@ -56,6 +56,8 @@ Nest(e) == CASE e = "e1" -> "n1" [] e = "e2" -> "n2" [] e = "e4" -> "n4"
 (* (the validation error of the inner parameter handed on to the outer one, ni<k>, is another error *)
 (* than the outer parameter's own i<k>: other datatype, other text)                                *)
 Base(e) == CASE e = "n1" -> "e1" [] e = "n2" -> "e2" [] e = "n4" -> "e4" [] OTHER -> e
+(* the error an outcome stems from, whatever context it picked up on its way *)
+Root(e) == CASE e = "ni1" -> "i1" [] e = "ni2" -> "i2" [] OTHER -> Base(e)
 AllErrs == Errs \cup Invs \cup {Nest(e) : e \in Errs \cup Invs} \cup {InitErr}
 
 VARIABLES cache,   \* [Params -> [val, err, ts]]
@@ -268,11 +270,12 @@ RecoveryAnnounced == [][\A p \in Params : (cache[p].err # Ok /\ cache'[p].err = 
                           \A c \in Conns : Listens(sub[c], p) =>
                                out'[c][p] = <<<<"v", cache'[p].val, cache'[p].ts>>>>]_vars
 
-(* one operation touches one parameter - or two with the same outcome (nested read) - and only *)
+(* one operation touches one parameter - or two with the same outcome (nested read: both fine, or *)
+(* both failing with the error the inner read met) - and only                                    *)
 (* the touched parameters are sent                                                             *)
 Isolation == [][LET ch == {p \in Params : cache'[p] # cache[p]} IN
                 /\ Cardinality(ch) <= 2
-                /\ \A p, q \in ch : Base(cache'[p].err) = Base(cache'[q].err)
+                /\ \A p, q \in ch : Root(cache'[p].err) = Root(cache'[q].err)
                 /\ cache' # cache => Cardinality({p \in Params : \E c \in Conns : out'[c][p] # <<>>}) <= 2]_vars
 (* The reconstruction law holds per activated scope: `seen` of a connection is (re)started by the  *)
 (* snapshot of Activate for exactly the covered parameters and forgotten when no scope of the      *)
